@@ -8,6 +8,7 @@ import (
 	"fmt"
 	"sort"
 	"strings"
+	"sync/atomic"
 	"testing"
 	"testing/synctest"
 	"time"
@@ -33,6 +34,12 @@ type c18P struct {
 	Len   int       `json:"len"`
 	Chunk uint64    `json:"chunk"`
 	Peers []c18Peer `json:"peers"`
+	// Warm > 0: a preceding range request over heights 2..1+Warm*Chunk gives the peers their scores (bytes/ms), so
+	// the order in which the session pops them for the judged request is determined by their delays.
+	Warm int `json:"warm,omitempty"`
+	// PreKick > 0: peer #PreKick (1-based) is disconnected immediately before the judged call, while the tracker
+	// still lists it.
+	PreKick int `json:"pre_kick,omitempty"`
 }
 
 const c18Total = 200
@@ -56,6 +63,21 @@ func TestC18(t *testing.T) {
 		mon.Emit(r, "range", c18P{From: 5, Len: int(2 * chunk), Chunk: chunk, Peers: []c18Peer{{Fault: "prefix-once", Kick: 3}, {DelayMs: 200}, {DelayMs: 5}}}, "range")
 		mon.Emit(r, "range", c18P{From: 5, Len: int(2 * chunk), Chunk: chunk, Peers: []c18Peer{{Real: true, Avail: 5 + int(chunk) - 1 + 1}, {Fault: "prefix-once", Kick: 4, DelayMs: 3}, {DelayMs: 300}, {DelayMs: 8}}}, "range")
 	}
+	// a tracked peer is already offline when the session is created (every peer is popped: chunks >= peers)
+	for _, chunk := range []uint64{1, 2, 4} {
+		for k := 1; k <= 3; k++ {
+			mon.Emit(r, "range", c18P{From: 7, Len: int(3 * chunk), Chunk: chunk, PreKick: k, Peers: []c18Peer{{DelayMs: 2}, {DelayMs: 9}, {Real: true}}}, "range")
+			mon.Emit(r, "range", c18P{From: 7, Len: int(4*chunk) + 1, Chunk: chunk, PreKick: k, Warm: 3, Peers: []c18Peer{{DelayMs: 20}, {DelayMs: 1}, {DelayMs: 6}}}, "range")
+		}
+	}
+	// scores fixed by a warm-up: the best peer holds only a prefix of the single chunk and, while it answers, the
+	// second best (idle in the queue) goes offline; only the slowest peer can finish the range
+	for _, chunk := range []uint64{4, 8} {
+		from := 3*chunk + 5
+		mon.Emit(r, "range", c18P{From: from, Len: int(chunk), Chunk: chunk, Warm: 3, Peers: []c18Peer{{Avail: int(from + chunk/2), DelayMs: 1, Kick: 2}, {DelayMs: 20}, {DelayMs: 200}}}, "range")
+		mon.Emit(r, "range", c18P{From: from, Len: int(chunk), Chunk: chunk, Warm: 3, Peers: []c18Peer{{DelayMs: 150}, {DelayMs: 20}, {Avail: int(from + 1), DelayMs: 1, Kick: 2}}}, "range")
+		mon.Emit(r, "range", c18P{From: from + chunk, Len: int(2 * chunk), Chunk: chunk, Warm: 4, Peers: []c18Peer{{Avail: int(from + chunk + 2), DelayMs: 1, Kick: 3}, {DelayMs: 300}, {DelayMs: 20}, {Avail: int(from + chunk + 1), DelayMs: 5}}}, "range")
+	}
 	for i := 0; i < r.N(330, 15000); i++ {
 		chunk := chunks[rng.Intn(len(chunks))]
 		p := c18P{From: 1 + uint64(rng.Intn(60)), Len: 1 + rng.Intn(int(min(3*chunk, 100))), Chunk: chunk}
@@ -73,6 +95,17 @@ func TestC18(t *testing.T) {
 			}
 			p.Peers = append(p.Peers, pe)
 		}
+		if np > 1 && rng.Intn(3) == 0 {
+			p.Warm = min(np, int(190/chunk))
+		}
+		if np > 1 && rng.Intn(4) == 0 {
+			other := (capable + 1 + rng.Intn(np-1)) % np
+			if rng.Intn(2) == 0 {
+				p.PreKick = other + 1
+			} else if kicker := rng.Intn(np); kicker != other && !p.Peers[kicker].Real {
+				p.Peers[kicker].Kick = other + 1
+			}
+		}
 		mon.Emit(r, "range", p, "range")
 	}
 	// Head / Get / GetByHeight through the wire against real servers
@@ -83,7 +116,7 @@ func TestC18(t *testing.T) {
 }
 
 // buildHonestWorld sets up real servers and scripted honest peers; returns the client world pieces.
-func buildHonestWorld(c *mon.Case, p c18P) (*simnet.World, []*simnet.Peer, []*storeEnv, func()) {
+func buildHonestWorld(c *mon.Case, p c18P, mainPhase *atomic.Bool) (*simnet.World, []*simnet.Peer, []*storeEnv, func()) {
 	chain := chainOf(c18Total)
 	w, err := simnet.New(len(p.Peers)+1, time.Millisecond)
 	if err != nil {
@@ -106,13 +139,15 @@ func buildHonestWorld(c *mon.Case, p c18P) (*simnet.World, []*simnet.Peer, []*st
 		}
 		b := behaviour{Kind: bHonest, DelayMs: pe.DelayMs, Avail: avail}
 		fault, kick := pe.Fault, pe.Kick
+		var mainSeq atomic.Int32 // requests of the judged call seen by this peer ("once" faults fire on its first)
 		peers[i] = w.ScriptPeer(i+1, func(rq simnet.Request) simnet.Reply {
-			if rq.Seq == 0 && kick > 0 && kick <= len(p.Peers) {
+			first := mainPhase.Load() && mainSeq.Add(1) == 1
+			if first && kick > 0 && kick <= len(p.Peers) {
 				_ = w.Net.DisconnectPeers(w.Hosts[0].ID(), w.Hosts[kick].ID())
 				_ = w.Net.UnlinkPeers(w.Hosts[0].ID(), w.Hosts[kick].ID())
 			}
 			bb := b
-			if rq.Seq == 0 {
+			if first {
 				switch fault {
 				case "slow-once":
 					bb.DelayMs = 1500 // beyond the client's request timeout
@@ -144,7 +179,9 @@ func buildHonestWorld(c *mon.Case, p c18P) (*simnet.World, []*simnet.Peer, []*st
 func c18Run(c *mon.Case, p c18P) {
 	c.Bubble(func() {
 		chain := chainOf(c18Total)
-		w, _, _, closeAll := buildHonestWorld(c, p)
+		var mainPhase atomic.Bool
+		mainPhase.Store(p.Warm == 0)
+		w, _, _, closeAll := buildHonestWorld(c, p, &mainPhase)
 		defer closeAll()
 		ex := newExchange(c, w, 0, []int{1}, p2p.WithRequestTimeout[p2p.ClientParameters](time.Second), p2p.WithMaxHeadersPerRangeRequest[p2p.ClientParameters](p.Chunk))
 		defer func() {
@@ -156,6 +193,22 @@ func c18Run(c *mon.Case, p c18P) {
 		time.Sleep(50 * time.Millisecond)
 		synctest.Wait()
 
+		if p.Warm > 0 {
+			wctx, wcancel := context.WithTimeout(context.Background(), 2*time.Minute)
+			wout, werr := ex.GetRangeByHeight(wctx, chain.At(1), 2+uint64(p.Warm)*p.Chunk)
+			wcancel()
+			c.Count("warm-up sessions", 1)
+			if werr != nil || len(wout) != p.Warm*int(p.Chunk) {
+				c.Violation("honest-range-request-fails/warm-up", fmt.Sprintf("warm-up GetRangeByHeight(1, %d): %d headers, %v", 2+uint64(p.Warm)*p.Chunk, len(wout), werr), nil)
+				return
+			}
+			synctest.Wait()
+			mainPhase.Store(true)
+		}
+		if p.PreKick > 0 && p.PreKick <= len(p.Peers) {
+			_ = w.Net.DisconnectPeers(w.Hosts[0].ID(), w.Hosts[p.PreKick].ID())
+			_ = w.Net.UnlinkPeers(w.Hosts[0].ID(), w.Hosts[p.PreKick].ID())
+		}
 		to := p.From + uint64(p.Len) + 1
 		ctx, cancel := context.WithTimeout(context.Background(), 2*time.Minute)
 		t0 := time.Now()
@@ -182,6 +235,12 @@ func c18Run(c *mon.Case, p c18P) {
 			ks = append(ks, k)
 		}
 		sort.Strings(ks)
+		if p.Warm > 0 {
+			ks = append(ks, "warmed")
+		}
+		if p.PreKick > 0 {
+			ks = append(ks, "prekick")
+		}
 		outcome := "ok"
 		if err != nil {
 			outcome = "error"
@@ -209,7 +268,9 @@ func c18Run(c *mon.Case, p c18P) {
 func c18Single(c *mon.Case, p c18P) {
 	c.Bubble(func() {
 		chain := chainOf(c18Total)
-		w, _, envs, closeAll := buildHonestWorld(c, p)
+		var mainPhase atomic.Bool
+		mainPhase.Store(true)
+		w, _, envs, closeAll := buildHonestWorld(c, p, &mainPhase)
 		defer closeAll()
 		trusted := make([]int, len(p.Peers))
 		for i := range trusted {
